@@ -71,11 +71,18 @@ def suffix_rule(ctx):
         if s is None or s[0] != "ctor":
             continue
         variant = s[1].split("::")[-1]
-        pos = [(t, node) for t, pol, node in sp.conds if pol and contains(t, lambda x: x[0] == "call" and x[1].endswith("::ends_with"))]
+        pos = [(t, node) for t, pol, node in sp.conds
+               if pol and (t[0] == "bin" and t[1] == "||" or (t[0] == "call" and t[1].endswith("::ends_with")))
+               and contains(t, lambda x: x[0] == "call" and x[1].endswith("::ends_with"))]
         if not pos:
             continue
         t, node = pos[-1]
-        for x in subterms(t):
+
+        def disjuncts(c):
+            if c[0] == "bin" and c[1] == "||":
+                return disjuncts(c[2]) + disjuncts(c[3])
+            return [c]
+        for x in disjuncts(t):
             if x[0] == "call" and x[1].endswith("::ends_with") and len(x) == 4 and x[3][0] == "lit":
                 table[x[3][1]] = variant
     for suf, var in SUFFIX_SPEC.items():
@@ -104,8 +111,12 @@ def suffix_rule(ctx):
                   "get_reader selects decompression by %s, SeqFormat::get strips \".gz\"" % gz2, fr.fn["sp"])
         # decoder only under is_zip
         dec = [c for c in fr.nodes if c.get("k") in ("call", "mcall") and cname(c).startswith("flate2::")]
-        okg = bool(dec) and all(any(contains(fr.term(c), lambda s: s[0] == "call" and s[1].endswith("::ends_with")) and p
-                                    for c, p in fr.guards(d)) for d in dec)
+        def gz_true(t, p):
+            # (ends_with(".gz"), True)  or  (!ends_with(".gz"), False)
+            if t[0] == "un" and t[1] == "!":
+                return gz_true(t[2], not p)
+            return p and t[0] == "call" and t[1].endswith("::ends_with") and len(t) == 4 and t[3] == L(".gz")
+        okg = bool(dec) and all(any(gz_true(fr.term(c), p) for c, p in fr.guards(d)) for d in dec)
         ctx.check("C06.X", "get_reader:gz_guard", okg, "decoder used exactly when the path ends with .gz",
                   "the gzip decoder is not selected by the .gz test", line_of(dec[0]) if dec else fr.fn["sp"])
         stdin = [n for n in fr.nodes if n.get("k") == "bin" and n["op"] == "==" and L("-") in (fr.term(n["l"]), fr.term(n["r"]))]
@@ -113,7 +124,7 @@ def suffix_rule(ctx):
                   "get_reader no longer maps exactly \"-\" to stdin", fr.fn["sp"])
     fo = ctx.view("composition::oligo::OligoComputer::vectorise")
     if fo is not None:
-        stdin = [n for n in fo.nodes if n.get("k") == "bin" and n["op"] == "==" and L("-") in (fo.term(n["l"]), fo.term(n["r"]))]
+        stdin = [n for n in fo.nodes if n.get("k") == "bin" and n["op"] in ("==", "!=") and L("-") in (fo.term(n["l"]), fo.term(n["r"]))]
         ctx.check("C06.X", "oligo::vectorise:stdin_literal", len(stdin) == 1, "\"-\" routes stdin to the batch writer",
                   "OligoComputer::vectorise no longer tests the same \"-\" literal as get_reader", fo.fn["sp"])
     ctx.floor("C06.X", 11)
@@ -148,7 +159,8 @@ def accessor_rule(ctx):
         seqlens = [a for a in adds if fs_.term(a["r"])[0] == "call" and fs_.term(a["r"])[1].endswith("::len")
                    and fs_.term(a["r"])[2][0] == "call" and fs_.term(a["r"])[2][1] in
                    ("bio::io::fasta::Record::seq", "bio::io::fastq::Record::seq")]
-        counts = [a for a in adds if fs_.term(a["r"]) == L(1)]
+        from .c14 import counts_each_item
+        counts = [l for l in fs_.nodes if l.get("k") == "for" and counts_each_item(fs_, l)]
         ctx.check("C06.A", "seq_stats:total_length", len(seqlens) == 2, "total_length += record.seq().len() in both arms",
                   "seq_stats does not add `seq().len()` of every record in both formats (found %d)" % len(seqlens),
                   fs_.fn["sp"])
@@ -157,8 +169,20 @@ def accessor_rule(ctx):
         lit = struct_literal(fs_, "ktio::seq::SeqStats")
         if lit is not None:
             f = struct_fields(fs_, lit)
-            ok = f.get("seq_count", ("?",))[0] == "local" and f["seq_count"][1] == "seq_count" \
-                and f.get("total_length", ("?",))[0] == "local" and f["total_length"][1] == "total_length"
+            # each field is fed by the accumulator of that role: the counter (+1 per record) and the length sum
+            cnt_vars = set()
+            len_vars = set()
+            for l in fs_.nodes:
+                if l.get("k") != "for":
+                    continue
+                for a in walk(l["body"]):
+                    if a.get("k") in ("assignop", "assign"):
+                        rt = fs_.term(a["r"])
+                        if contains(rt, lambda s_: s_[0] == "call" and s_[1].endswith("Record::seq")):
+                            len_vars.add(fs_.term(a["l"]))
+                        elif a.get("k") == "assignop" and rt == L(1) or (a.get("k") == "assign" and contains(rt, lambda s_: s_[0] == "proj")):
+                            cnt_vars.add(fs_.term(a["l"]))
+            ok = f.get("seq_count") in cnt_vars and f.get("total_length") in len_vars and len(cnt_vars) == 1 and len(len_vars) == 1
             ctx.check("C06.A", "seq_stats:result", ok, "SeqStats{seq_count, total_length} not exchanged",
                       "SeqStats fields are filled from %s" % {k: show(v) for k, v in f.items()}, line_of(lit))
 
